@@ -917,6 +917,17 @@ impl Api for Server {
       return Ok(false);
     }
 
+    // Bitcoin Core validates all outputs of a `lockunspent` call before locking
+    // any of them, so the same output may appear twice in one call.
+    #[cfg(feature = "verif")]
+    let outputs = {
+      let mut seen = BTreeSet::new();
+      outputs
+        .into_iter()
+        .filter(|output| seen.insert((output.txid, output.vout)))
+        .collect::<Vec<JsonOutPoint>>()
+    };
+
     for output in outputs {
       let output = OutPoint {
         vout: output.vout,
